@@ -179,12 +179,15 @@ def appropriate_place(ctx):
             else:
                 prev = body[len(node) + 1:]
                 it = node.rsplit(".next()", 1)[0] if ".next()" in node else None
-                ok_prev = (it is not None and prev.startswith(it + ".peek()")) or re.search(r"\[\(?.*- 1\)?\]", prev) is not None
+                ok_prev = (it is not None and prev.startswith(it + ".peek()")) or re.search(r"\[\(?.*- 1\)?\]", prev) is not None or \
+                    (node.endswith(".1") and prev.startswith("self.open_elems[..%s.0].last()" % node[:-2]))
                 if not ok_prev:
                     bad = "the fallback parent for a table without a parent is %s, not the element directly below the table in the stack" % prev[:80]
-        elif _loop_exit(pc) == "end":
+        elif _loop_exit(pc) == "end" and ret in ("()", ""):
             seen.add("foster-next")
         else:
+            if _loop_exit(pc) == "end":
+                seen.add("foster-next")  # a `for` over the stack: going on and running out are one path
             seen.add("foster-none")
             if ret != "LastChild(self.html_elem())":
                 bad = "no table and no template on the stack (fragment case): the place is %s, not the html element" % ret[:80]
